@@ -91,6 +91,10 @@ static unsigned uv__utf8_decode1_slow(const char** p,
     }
     /* Fall through. */
   case 2:
+    if (a > 0xEF) {
+      *p = pe;
+      return -1;  /* Truncated four-byte sequence. */
+    }
     if (a > 0xDF) {
       min = 0x800;
       b = 0x80 | (a & 15);
@@ -101,6 +105,10 @@ static unsigned uv__utf8_decode1_slow(const char** p,
     }
     /* Fall through. */
   case 1:
+    if (a > 0xDF) {
+      *p = pe;
+      return -1;  /* Truncated three-byte sequence. */
+    }
     if (a > 0xBF) {
       min = 0x80;
       b = 0x80;
@@ -114,8 +122,8 @@ static unsigned uv__utf8_decode1_slow(const char** p,
     return -1;  /* Invalid continuation byte. */
   }
 
-  if (0x80 != (0xC0 & (b ^ c ^ d)))
-    return -1;  /* Invalid sequence. */
+  if (0x80 != (0xC0 & b) || 0x80 != (0xC0 & c) || 0x80 != (0xC0 & d))
+    return -1;  /* Invalid continuation byte. */
 
   b &= 63;
   c &= 63;
